@@ -518,3 +518,139 @@ def _pick_branch(f, phi, exact):
                     if f.dominates(true_succ, p):
                         return o if exact else [x for x in ops if x is not o][0]
     return ops[-1] if exact else ops[0]
+
+
+@rule("R-HELMERT-ALGEBRA", ["C07", "C01"])
+def r_helmert_algebra(cx):
+    """helmert_common: the inverse branch composed with the forward branch is the identity as a polynomial identity in
+    the input elements, the scale, the translation and the entries of the matrix, modulo R^T R = I (which
+    R-ROT-ORTHOGONAL establishes for exact mode) - for the rotated and the unrotated path"""
+    from poly import Poly, subst, reduce_products
+    import elems as E
+    name = "inner_op::helmert::helmert_common"
+    if not cx.f.has_fn(name):
+        cx.ob("R-HELMERT-ALGEBRA", "anchor", False, "anchor-missing: %s" % name)
+        return
+    f = cx.f.fn(name)
+    pts = pertuple.per_tuple_loops(f)
+    if len(pts) != 1:
+        cx.ob("R-HELMERT-ALGEBRA", "anchor", False, "anchor-missing: one per-tuple loop expected in helmert_common")
+        return
+    pt = pts[0]
+    from rules.loops import _input_term
+    inp = _input_term(pt)
+
+    def sym_of(t):
+        """symbol name for a leaf term, or None"""
+        t = mir.strip_refs(t)
+        idx = []
+        b = t
+        while b[0] == "proj" and isinstance(b[2], tuple) and b[2][0] == "elem" and len(b[2]) == 2:
+            idx.append(b[2][1])
+            b = mir.strip_refs(b[1])
+        idx.reverse()
+        if b == inp and len(idx) == 1:
+            return "c%d" % idx[0]
+        root = b
+        for _ in range(6):
+            if root[0] in ("phi", "loopphi") and isinstance(root[1], tuple) and isinstance(root[1][1], int):
+                nm = f.lname(root[1][1])
+                return nm + "".join("_%d" % i for i in idx)
+            break
+        return None
+
+    def to_poly(t, depth=0):
+        t = mir.strip_refs(t)
+        if depth > 80:
+            raise ValueError("too deep")
+        v = _num_const(t)
+        if v is not None:
+            return Poly.const(v)
+        s = sym_of(t)
+        if s is not None:
+            return Poly.sym(s)
+        if t[0] == "bin" and t[1] in ("Add", "Sub", "Mul"):
+            a, b = to_poly(t[2], depth + 1), to_poly(t[3], depth + 1)
+            return a + b if t[1] == "Add" else (a - b if t[1] == "Sub" else a * b)
+        if t[0] == "bin" and t[1] == "Div":
+            a = to_poly(t[2], depth + 1)
+            s2 = sym_of(t[3])
+            if s2 is None:
+                raise ValueError("division by a non-symbol")
+            return a * Poly.sym("inv_" + s2)
+        if t[0] == "un" and t[1] == "Neg":
+            return -to_poly(t[2], depth + 1)
+        raise ValueError("not polynomial: %s" % mir.show(t, maxd=2)[:60])
+
+    # written tuples, as alternatives (phi leaves), each a list of 4 element terms
+    alts = []
+    for bb, m in sorted(pt.writes):
+        point = f.end_point(bb)
+        v = f._deref(f.arg_terms(bb)[2], point)
+        for leaf in _phi_leaves(mir.strip_refs(v)):
+            es = E.elems(f, leaf, point)
+            try:
+                P = [to_poly(e) for e in es[:3]]
+            except ValueError as e:
+                cx.ob("R-HELMERT-ALGEBRA", "extract/write@%d" % len(alts), False,
+                      "a tuple written by helmert_common is not polynomial in (input, scale, translation, matrix): %s" % e,
+                      cx.where(f.term(bb)["span"]))
+                return
+            e3 = E.same_elem(es[3], ("proj", inp, ("elem", 3)), f, point)
+            syms = set()
+            for p in P:
+                for k in p.t:
+                    for s, _ in k:
+                        syms.add(s)
+            alts.append({"P": P, "rot": any(s.startswith("ROT") for s in syms), "inv": any(s.startswith("inv_") for s in syms),
+                         "t_kept": e3, "where": cx.where(f.term(bb)["span"])})
+    cx.count("R-HELMERT-ALGEBRA", "written_alternatives", len(alts))
+    rules_inv = {}
+    # orthogonality of columns: ROT_0i * ROT_0k = delta_ik - ROT_1i*ROT_1k - ROT_2i*ROT_2k
+    ortho = {}
+    for i in range(3):
+        for k in range(i, 3):
+            a, b = "ROT_0_%d" % i, "ROT_0_%d" % k
+            rhs = Poly.const(1 if i == k else 0) - Poly.sym("ROT_1_%d" % i) * Poly.sym("ROT_1_%d" % k) \
+                - Poly.sym("ROT_2_%d" % i) * Poly.sym("ROT_2_%d" % k)
+            ortho[tuple(sorted((a, b)))] = rhs
+    ortho[tuple(sorted(("SS", "inv_SS")))] = Poly.const(1)
+    for rot in (True, False):
+        F = [a for a in alts if a["rot"] == rot and not a["inv"]]
+        G = [a for a in alts if a["rot"] == rot and a["inv"]]
+        label = "rotated" if rot else "unrotated"
+        if len(F) != 1 or len(G) != 1:
+            cx.ob("R-HELMERT-ALGEBRA", "%s/branches" % label, False,
+                  "anchor-missing: expected one forward and one inverse %s branch in helmert_common, found %d / %d" % (
+                      label, len(F), len(G)))
+            continue
+        Fp, Gp = F[0]["P"], G[0]["P"]
+        ok = True
+        bad = None
+        for i in range(3):
+            comp = subst(Gp[i], {"c%d" % j: Fp[j] for j in range(3)})
+            comp = reduce_products(comp, ortho)
+            if not (comp == Poly.sym("c%d" % i)):
+                ok = False
+                bad = (i, comp)
+        cx.ob("R-HELMERT-ALGEBRA", "%s/inv-after-fwd" % label, ok,
+              "helmert (%s): inverse(forward(x)) = x identically in x, S, T%s" % (label, ", R (given R^T R = I)" if rot else "")
+              if ok else
+              "helmert (%s): inverse(forward(x)) != x: element %d becomes %s" % (label, bad[0], str(bad[1])[:160]), G[0]["where"])
+        tk = F[0]["t_kept"] and G[0]["t_kept"]
+        cx.ob("R-HELMERT-ALGEBRA", "%s/time-kept" % label, tk, "the fourth coordinate is copied through" if tk else
+              "helmert (%s) changes the fourth coordinate" % label, G[0]["where"], nontrivial=False)
+        # forward has the documented form T + S * R x : linear in x with coefficient S*R_ij and constant T_i
+        okf = True
+        for i in range(3):
+            want = Poly.sym("TT_%d" % i)
+            for j in range(3):
+                if rot:
+                    want = want + Poly.sym("SS") * Poly.sym("ROT_%d_%d" % (i, j)) * Poly.sym("c%d" % j)
+                elif i == j:
+                    want = want + Poly.sym("SS") * Poly.sym("c%d" % j)
+            if not (Fp[i] == want):
+                okf = False
+        cx.ob("R-HELMERT-ALGEBRA", "%s/forward-form" % label, okf,
+              "helmert forward (%s) is T + S*%sx element by element" % (label, "R*" if rot else "") if okf else
+              "helmert forward (%s) is not T + S*%sx" % (label, "R*" if rot else ""), F[0]["where"])
